@@ -58,13 +58,22 @@ func h_locks_free(c *OneConnection, label string) {
 // C18: "version" handler on every payload up to the tier's length, from an arbitrary connection status.
 func H_C18_HandleVersion() {
 	h_stubs()
-	maxL := 100
+	maxL := 92
 	if zzverif.Tier() == 1 {
 		maxL = 140
 	}
-	zzverif.Bound("version payload", "every byte string of length 0..maxL (100 quick / 140 thorough)")
+	zzverif.Bound("version payload", "every byte string of length 0..maxL (92 quick / 140 thorough) and of length 345 (quick) / 200, 337, 345, 346, 600 (thorough)")
 	c := h_conn()
-	L := zzverif.Len("L", 0, maxL)
+	// every length up to maxL, plus a few long payloads (user agents beyond 253 and 256 bytes)
+	long := []int{345}
+	if zzverif.Tier() == 1 {
+		long = []int{200, 337, 345, 346, 600}
+	}
+	li := zzverif.Len("L", 0, maxL+len(long))
+	L := li
+	if li > maxL {
+		L = long[li-maxL-1]
+	}
 	pl := zzverif.Bytes("pl", L)
 	panicked := zzverif.Panics(func() { c.HandleVersion(pl) })
 	zzverif.Assert("C18.version.nopanic", !panicked)
